@@ -278,7 +278,7 @@ func c12Gen(rt *rapid.T) c12Case {
 	if g.Bool(50, "twobranches") {
 		c.Branches = append(c.Branches, "dev")
 	}
-	c.Parallelism = kit.Pick(g, []int{1, 1, 4}, "par")
+	c.Parallelism = kit.Pick(g, []int{1, 1, 1, 4}, "par")
 	nOld := g.Int(1, 3, "oldshards")
 	if c.Kind == "compound" {
 		nOld = 1 // the repository is one member of one compound shard
@@ -851,13 +851,21 @@ func runC12(rec *kit.Recorder, active map[string]bool, c c12Case) error {
 		}
 	}
 
-	// ---- every rename / remove / temp-file creation fails once
+	// ---- every rename / remove fails once; temp-file creations, too (quick
+	// tier: only the first one per file class, a build costs ~0.1 s)
+	seenClass := map[string]bool{}
 	for _, op := range oplog {
 		if !op.Mutating || op.Failed {
 			continue
 		}
 		switch op.Kind {
-		case fsx.KRename, fsx.KRemove, fsx.KRemoveAll, fsx.KCreateTemp, fsx.KCreate, fsx.KOpenFile, fsx.KWriteFile:
+		case fsx.KRename, fsx.KRemove, fsx.KRemoveAll:
+		case fsx.KCreateTemp, fsx.KCreate, fsx.KOpenFile, fsx.KWriteFile:
+			class := op.Kind + filepath.Ext(strings.TrimSuffix(fsx.NormBase(op.Path), ".*.tmp"))
+			if seenClass[class] && !rec.Thorough() {
+				continue
+			}
+			seenClass[class] = true
 		default:
 			continue
 		}
@@ -974,22 +982,8 @@ func (j *c12Judge) failOnce(root, initial string, target fsx.Op) {
 	}
 }
 
-// faultsBallast keeps the garbage collector's heap goal high enough that the
-// two 16 MiB posting tables every shard build allocates are recycled from
-// resident memory instead of being returned to the OS and faulted in again
-// (page faults dominated the run time otherwise). It is never touched, so it
-// costs address space only.
-var faultsBallast []byte
-
 func faultsSetup() {
-	log.SetOutput(io.Discard)
-	if faultsBallast == nil {
-		mb := 256
-		if v := os.Getenv("VERIF_BALLAST_MB"); v != "" {
-			fmt.Sscan(v, &mb)
-		}
-		faultsBallast = make([]byte, mb<<20)
-	}
+	log.SetOutput(io.Discard) // zoekt logs every shard it writes or loads
 }
 
 func TestVerif_C12(t *testing.T) {
